@@ -108,7 +108,9 @@ def _load_offsets(cache_path, current_hash):
             ) = pickle.load(file)
             if current_hash is None or current_hash == serialized_hash:
                 return
-    except (FileNotFoundError, ValueError, TypeError):
+    except Exception:
+        # A missing, empty, truncated or otherwise unreadable cache (e.g. left by
+        # an interrupted write) must not break the import: rebuild it below.
         pass
 
     _search_regex_parts = []
